@@ -256,15 +256,22 @@ func (serviceCore *ServiceCore) Init() error {
 		serviceCore.NodeInfo.KeyPairs = append(serviceCore.NodeInfo.KeyPairs, keyPair)
 	}
 
+	return serviceCore.loadState()
+}
+
+// loadState loads the registered clients and the access controls. The two
+// files are independent: a missing clients.json (no client registered yet)
+// must not prevent the stored access controls from being loaded.
+func (serviceCore *ServiceCore) loadState() error {
 	// load clients
-	err = serviceCore.loadClients()
-	if err != nil {
+	err := serviceCore.loadClients()
+	if err != nil && !os.IsNotExist(err) {
 		return err
 	}
 
 	// load acls
 	err = serviceCore.loadAcls()
-	if err != nil {
+	if err != nil && !os.IsNotExist(err) {
 		return err
 	}
 
